@@ -510,4 +510,5 @@ package kafka
 //@ func (*Writer).produce
 //@   option noframe
 //@   modifies heap
-//@   callsite (*Client).Produce requires typeis($2.Records, "*kafka.writerRecords") && deref($2.Records, "writerRecords").index == 0 && same(deref($2.Records, "writerRecords").msgs, batch.msgs)
+//@   callsite (*Client).Produce requires typeis($2.Records, "*kafka.writerRecords") && deref($2.Records, "writerRecords").index == 0
+//@   callsite (*Client).Produce requires same(deref($2.Records, "writerRecords").msgs, batch.msgs)
